@@ -631,6 +631,8 @@ func (c *Ctx) load(p *Val, t types.Type, st *State) *Val {
 				return c.globalVal(p.Loc.Prefix, t)
 			}
 			return c.mapRead(st, p.Loc.Prefix, p.Loc.Keys, t)
+		case LConst:
+			return p.Loc.Const
 		}
 	}
 	c.sweepObl("nil.deref", sNot(sEq(p.S, "0")), "load through possibly nil pointer")
